@@ -8,7 +8,9 @@ RULE = ("array kernels for every N in 1..=16 (quick: 1-4, 8, 16) and the Uint me
         "1<=LIMBS<=16 (incl. non-aligned widths); odd moduli with top limb in {2^62-2,2^62-1,2^62,2^63-2,2^63-1,2^63,"
         "2^64-1,1,random} (the carry thresholds) x lower limbs {all-ones, zero except odd bit, random}; a, b in "
         "{0,1,m-1,m-2,(m+-1)/2, 2^(64N-1) if < m, random < m}; inv = -m^-1 mod 2^64 computed by the generator and "
-        "re-checked by the specification; signed quotient witnesses; a case is one distinct (N | width, m, a, b)")
+        "re-checked by the specification; signed quotient witnesses; composite moduli p*q (and p^2) with a = p*x, b = q*y so that "
+        "a*b is a non-zero exact multiple of m (the accumulator before the final subtraction equals m), and operand pairs "
+        "whose product is a non-zero multiple of 2^64 (first reduction factor 0); a case is one distinct (N | width, m, a, b)")
 B = 1 << 64
 TOPS = [2**62 - 2, 2**62 - 1, 2**62, 2**62 + 1, 2**63 - 2, 2**63 - 1, 2**63, 2**63 + 1, 2**64 - 1, 1, 3]
 
@@ -130,9 +132,84 @@ def aimed_carry_cases(rng, n, per_top, budget):
     return out
 
 
+def exact_multiple_cases(rng, maxval, count):
+    """(m, a, b) with a*b a NON-ZERO exact multiple of m (a, b < m): the accumulator before the final conditional
+    subtraction is then exactly m, the one input class on which `>=` and `>` in that subtraction differ.
+    m = p*q with a = p*x, b = q*y;  m = p^2 with a = b = p*x (squares)."""
+    out = []
+    bl = maxval.bit_length()
+    if bl < 4:
+        return [(m, a, b) for (m, a, b) in ((15, 3, 5), (15, 5, 3), (9, 3, 3), (9, 6, 3), (9, 3, 6), (9, 6, 6), (15, 6, 10)) if m <= maxval]
+    for _ in range(count):
+        pb = rng.randrange(2, bl - 1)
+        p = rng.getrandbits(pb) | 1 | (1 << (pb - 1))
+        qmax = maxval // p
+        if qmax < 3:
+            continue
+        kind = rng.randrange(4)
+        if kind == 0:
+            q = qmax if qmax % 2 == 1 else qmax - 1           # m as close to the top of the range as p allows
+        elif kind == 1 and p * p <= maxval:
+            q = p                                             # perfect square: a = b possible
+        else:
+            q = rng.randrange(3, qmax + 1) | 1
+            if q > qmax:
+                q -= 2
+        if p < 3 or q < 3:
+            continue
+        m = p * q
+        x = rng.choice([1, 2, q - 1, rng.randrange(1, q)])
+        y = rng.choice([1, 2, p - 1, rng.randrange(1, p)])
+        if not (0 < x < q and 0 < y < p):
+            continue
+        out.append((m, p * x, q * y))
+        if q == p:
+            out.append((m, p * x, p * x))
+    return out
+
+
+def low_zero_products(rng, n, maxval, count):
+    """(m, a, b) with a*b a non-zero multiple of 2^64 (the first reduction factor is 0 although the product is not)."""
+    out = []
+    bl = maxval.bit_length()
+    if bl < 3:
+        return out
+    for _ in range(count):
+        m = maxval if maxval % 2 == 1 else maxval - 1
+        if rng.random() < 0.5:
+            m = (rng.getrandbits(bl) | 1 | (1 << (bl - 1))) & maxval
+        if m < 3:
+            continue
+        i = rng.randrange(1, 64)
+        j = 64 - i + rng.choice([0, 0, 1, 64]) if n > 1 else 64 - i
+        a = ((rng.getrandbits(8) | 1) << i) % (1 << bl)
+        b = ((rng.getrandbits(8) | 1) << j) % (1 << bl)
+        if 0 < a < m and 0 < b < m and (a * b) % B == 0:
+            out.append((m, a, b))
+    if maxval >= (1 << 33):
+        m = maxval if maxval % 2 == 1 else maxval - 1
+        out += [(m, 1 << 32, 1 << 32)] + ([(m, 1 << 63, 2), (m, 2, 1 << 63)] if maxval > (1 << 63) else [])
+    return out
+
+
 def scenarios(tier, rng):
     quick = tier == "quick"
     kern, math = [], []
+    for n in ([1, 2, 3, 4] if quick else [1, 2, 3, 4, 5, 8, 16]):
+        maxval = (1 << (64 * n)) - 1
+        for m, a, b in exact_multiple_cases(rng, maxval, 40 if quick else 400) + low_zero_products(rng, n, maxval, 20 if quick else 200):
+            inv = (-pow(m, -1, B)) % B
+            kern.append({"g": "kern", "op": "kredc", "a": slice_bytes(a, n), "b": slice_bytes(b, n), "m": slice_bytes(m, n),
+                         "inv": tobytes(inv), "w": W.redc_witness(a, b, m, n), "aim": "exact_multiple"})
+    for bits in WIDTHS:
+        n = nlimbs(bits)
+        if not (1 <= n <= 16) or bits < 2:
+            continue
+        maxval = (1 << bits) - 1
+        for m, a, b in exact_multiple_cases(rng, maxval, 8 if quick else 80) + low_zero_products(rng, n, maxval, 6 if quick else 60):
+            inv = (-pow(m, -1, B)) % B
+            math.append({"g": "math", "op": "redc", "bits": bits, "a": tobytes(a), "b": tobytes(b), "m": tobytes(m),
+                         "inv": tobytes(inv), "w": W.redc_witness(a, b, m, n), "aim": "exact_multiple"})
     for n in (3, 4, 6):
         for m, a, b in aimed_carry_cases(rng, n, 12 if quick else 120, 3000 if quick else 40000):
             inv = (-pow(m, -1, B)) % B
